@@ -709,9 +709,15 @@ pub fn da_step(ctx: &mut Ctx, sim: &mut Sim, p: &Node, validators: &[Node], rela
                 2 => block_limit,
                 _ => block_limit + 1 + ctx.tape.choose(10),
             };
-            let txs = match ctx.tape.choose(5) {
+            // transaction counts around the per-block limit (u16::MAX - 1 relayed + mint),
+            // alone and as sums (40_000 + 25_534 = 65_534)
+            let txs = match ctx.tape.choose(9) {
                 0 => u16::MAX as u64,
-                1 => 40_000,
+                1 => u16::MAX as u64 - 1,
+                2 => u16::MAX as u64 - 2,
+                3 => 40_000,
+                4 => 25_534,
+                5 => 25_535,
                 _ => ctx.tape.choose(5),
             };
             st.synthetic.insert(h, (cost, txs));
